@@ -148,7 +148,12 @@ def build_frame(case, f):
     text = frame_text(fr, d, style, case["syntax"], "pp pp pp", "none", order)
     E = case["E"]
     if E or case["blanks"]:
-        text = decorate(text, EXTRA_NAMES[:E], extra_columns(n, f, E) if E else None, case["blanks"])
+        names, vals = EXTRA_NAMES[:E], extra_columns(n, f, E) if E else None
+        if E and d == 2:
+            # 2D runs are commonly dumped with the z column as well: for a 2D reader it is one more trailing column
+            names = [{"x": "z", "xs": "zs", "xu": "zu"}[style]] + names[1:]
+            vals = [["0.5" if style == "xs" else "0"] + row[1:] for row in vals]
+        text = decorate(text, names, vals, case["blanks"])
     bb, rb = bounds_of(fr, d)
     exp = {"timestep": fr["ts"], "nparticle": n, "particle_type": types, "positions": np.asarray(expect, float).reshape(n, d), "boxlength": L,
            "boxbounds": np.array(bb), "realbounds": None if rb is None else np.array(rb), "hmatrix": H}
